@@ -290,12 +290,16 @@ class Dispatcher:
         # note: The initial poll already happend before the server is active
         for modulename, pname in modules:
             moduleobj = self.secnode.modules.get(modulename, None)
-            if pname:
-                conn.send_reply(make_update(modulename, moduleobj.parameters[pname]))
-                continue
-            for pobj in moduleobj.accessibles.values():
-                if isinstance(pobj, Parameter) and pobj.export:
-                    conn.send_reply(make_update(modulename, pobj))
+            # build and send under the update lock of the module: a concurrent
+            # announceUpdate can not overtake a snapshot message already built,
+            # which would leave a stale value as the last message on conn
+            with moduleobj.updateLock:
+                if pname:
+                    conn.send_reply(make_update(modulename, moduleobj.parameters[pname]))
+                    continue
+                for pobj in moduleobj.accessibles.values():
+                    if isinstance(pobj, Parameter) and pobj.export:
+                        conn.send_reply(make_update(modulename, pobj))
         return (ENABLEEVENTSREPLY, specifier, None) if specifier else (ENABLEEVENTSREPLY, None, None)
 
     def handle_deactivate(self, conn, specifier, data):
